@@ -1,5 +1,6 @@
 """C17 — findings are invariant under re-layout and commenting of the source (DESIGN 5/C17)."""
 from runner import Ob
+import core
 import sites as S
 import terms as T
 from core import show
@@ -16,12 +17,25 @@ META = {
                    "token's offset) the flagged constructs and their lines move exactly with the tokens.",
     "assumptions": ["the parser yields the same tree, up to locations, for token-identical re-layouts (trusted)",
                     "string literals are single tokens whose content the detectors compare only as token content (e.g. revert string length)"],
-    "floors": {"R17.text": 6, "R17.signature": 30, "R17.opaque": 3, "R17.comments": 3, "R17.lines": 1, "R17.asread": 3},
+    "floors": {"R17.text": 6, "R17.signature": 30, "R17.opaque": 3, "R17.comments": 3, "R17.lines": 1, "R17.asread": 6},
 }
 
 LOC_ACCESSORS = ("Loc::start", "Loc::end", "Loc::begin_range", "Loc::end_range", "Loc::range", "Loc::use_start_from", "Loc::use_end_from", "Loc::file_no", "Loc::try_file_no")
 ORDERING = ("std::cmp::PartialOrd::lt", "std::cmp::PartialOrd::le", "std::cmp::PartialOrd::gt", "std::cmp::PartialOrd::ge", "std::cmp::PartialOrd::partial_cmp",
             "std::cmp::Ord::cmp", "std::cmp::Ord::max", "std::cmp::Ord::min")
+
+
+def _looks_at(t, read_call, apaths):
+    """does the term mention the text that was read - other than inside the result of the analysis, and other than through the error of a failed read?"""
+    if not isinstance(t, tuple) or not t:
+        return False
+    if t == read_call:
+        return True
+    if t[0] == "proj" and len(t) == 3 and t[1] == read_call and t[2] == ("dc", "Err"):
+        return False
+    if t[0] == "call" and (t[1] in apaths or t[1] in (D.PARSE, D.LINE_FN)):
+        return False  # the parser sees tokens, not layout (trusted); a line looked up for a message is C02's business
+    return any(_looks_at(c, read_call, apaths) for c in t if isinstance(c, tuple))
 
 
 def run(ctx, crate):
@@ -109,6 +123,34 @@ def run(ctx, crate):
             obs.append(Ob("R17.asread", w.path, "the text analysed is the file's content as read (no trimming / rewriting on the way)", bool(ok), site=a_site.where,
                           expected="analyze_for_*(read_to_string(path)?, ..)", found=show(txt)[:120] if txt is not None else None,
                           example="a file that starts with blank lines"))
+        # ... and nothing else in the walk looks at it: a decision taken on the raw text (a size or bracket-count guard, a keyword pre-check) follows comments
+        # and layout, not tokens. The one exemption is the test for a file that holds nothing but white space (there is no token in it to report)
+        if len(w.reads) == 1:
+            content = T.strip_unwrap(w.reads[0].result)
+            trims = ("trim", "trim_start", "trim_end")
+            apaths = tuple(sorted(set(a.path for a in w.analyze)))
+            lookers = []
+            for x in w.sites:
+                if x is w.reads[0] or x in w.analyze or not x.args:
+                    continue
+                if not any(_looks_at(a, content, apaths) for a in x.args):
+                    continue
+                nm = x.path.rsplit("::", 1)[-1]
+                a0 = T.strip_unwrap(x.args[0])
+                while a0[0] == "call" and a0[1].rsplit("::", 1)[-1] in ("deref", "as_str", "as_ref", "borrow") and len(a0[2]) == 1:
+                    a0 = T.strip_unwrap(a0[2][0])
+                if nm in ("unwrap", "expect", "deref", "as_str", "as_ref", "borrow", "drop", "drop_in_place") and a0 == content:
+                    continue
+                if nm in trims and a0 == content and len(x.args) == 1:
+                    continue
+                if (x.path == D.PARSE and a0 == content) or (x.path == D.LINE_FN and len(x.args) == 2 and T.strip_unwrap(x.args[1]) == content):
+                    continue
+                if nm == "is_empty" and (a0 == content or (a0[0] == "call" and a0[1].rsplit("::", 1)[-1] in trims and len(a0[2]) == 1 and T.strip_unwrap(a0[2][0]) == content)):
+                    continue
+                lookers.append("%s at line %d" % (core.short_fn(x.path), x.line))
+            obs.append(Ob("R17.asread", w.path, "nothing but the analysis looks at the file's text", not lookers, site=w.reads[0].where,
+                          expected="the content read is handed to analyze_for_* and used nowhere else (an all-white-space test aside)", found=lookers[:6] or "no other use",
+                          example="the same file with a long comment full of brackets in front of the first token"))
     # R17.opaque
     det = D.detector_bodies(crate)
     n_calls = 0
